@@ -29,7 +29,12 @@ class ProductStream(InventoryOracle, Stream):
     rule = ("identifier class (current, deprecated, exception, LicenseRef-, unknown, wrong case, ill-formed LicenseRef- look-alike: "
             "underscore, non-ASCII letters / digits, colon, empty tail) x way of use (alone, '+', AND, OR, "
             "WITH, nested parentheses, two tags, .license, REUSE.toml, dep5, not used) x way of provision (absent, ID.txt, ID.md, ID, "
-            "sub-directory, ID+.txt, ID.txt with .license companion, only a differently named relative: ID-or-later.txt, ID-only.txt): "
+            "sub-directory, ID+.txt, ID.txt with .license companion, only a differently named relative: ID-or-later.txt, ID-only.txt; and reached "
+            "through a symbolic link: the entry itself a link to a regular file (another text of LICENSES/, a file elsewhere in the project, a hidden store "
+            "below LICENSES/, a file outside the project, a link to a link), the entry below a sub-directory that is a link to a directory (a LICENSES/ "
+            "directory elsewhere in the project, below .reuse/, a hidden directory, outside the project), below a LICENSES that is itself a link, or "
+            "only a dangling link of that name = not provided; quick: 13 link modes x 3 cells + every class x use once with a random mode, thorough: "
+            "every class x use x mode): "
             "every cell once with identifiers drawn without replacement "
             "(thorough: every identifier of the bundled lists at least twice more), plus the identifiers whose stem is an identifier, "
             "the LicenseRef-*Unknown* family, look-alikes that can only be file names (`LicenseRef-a~b`, blanks, `@`), and the GNU "
@@ -46,7 +51,9 @@ class ProductStream(InventoryOracle, Stream):
 class TreeStream(InventoryOracle, Stream):
     name = "trees"
     rule = ("compliant-by-construction trees (1-6 files, headers in 7 comment styles, .license siblings, binaries, REUSE.toml incl. "
-            "aggregate precedence, REUSE.toml hierarchies, dep5 with wildcard paragraphs, sub-directories of LICENSES/, .license companions, non-covered material, some in a Git "
+            "aggregate precedence, REUSE.toml hierarchies, dep5 with wildcard paragraphs, sub-directories of LICENSES/, .license companions, in three trees of ten licence "
+            "texts reached through symbolic links to files and to directories (inside LICENSES/, elsewhere in the project, outside it) and dangling links, "
+            "covered files in directories named like exempt ones (`.github`, `x.git`, `OLD-LICENSES`), non-covered material, some in a Git "
             "repository with ignored files / directories and covered files named alike) with 0-5 injected defects of 22 kinds; licence categories of the real report vs model vs property definitions")
 
     def cases(self, tier, rng):
@@ -70,6 +77,9 @@ PROPERTY = Property(
         "theorems carry plainNames: a LICENSES/ entry named by a listed identifier X.Y whose stem X is itself an identifier "
         "(OLDAP-2.0.1, OLDAP-2.2.1, OLDAP-2.2.2, Python-2.0.1) is excluded (known finding), as is the `LicenseRef-.ext` shape",
         "two LICENSES/ entries resolving to one identifier make the tool stop with an error (model: none); not generated here (C16)",
+        "symbolic links below LICENSES/: a link that resolves to a regular file is a licence text named by the link's own name; licence texts "
+        "below a sub-directory that is a link to a directory count like those of any sub-directory ('licence texts in subdirectories of LICENSES/ "
+        "count'); a dangling link is no licence text; links that form a loop, or that make one text appear under two names with one identifier, are not generated",
         "pathlib's name/stem/suffix and the LicenseRef- pattern are mirrored lexically and compared with CPython on every run (table round-trip)",
     ],
 )
